@@ -1030,7 +1030,9 @@ func (g *Gen) run() {
 			}
 			// likewise a call-site clause whose call does not occur in this function (calls made
 			// inside a function literal belong to that literal, `Outer$k`, not to Outer)
-			if (cl.Kind == "assert" || cl.Kind == "mark") && cl.Call != "*" && !g.usedAxioms[fmtf("clausehit:%p", cl)] {
+			// (clauses labelled hint_* are proof aids — obligations of their own wherever they apply —
+			// and may lose their anchor without the property's clauses being affected)
+			if (cl.Kind == "assert" || cl.Kind == "mark") && cl.Call != "*" && !strings.HasPrefix(cl.Label, "hint_") && !g.usedAxioms[fmtf("clausehit:%p", cl)] {
 				g.errorf("%s: clause `at call %s` [%s] matches no call in this function", g.fnLabel(), cl.Call, cl.Label)
 			}
 		}
